@@ -67,8 +67,10 @@ class PseudonymManager:
         if self.tree.gather_token(token) is not None:
             self.database.insert_token(self.public_key, token)
             # Tokens that were waiting for this one have been chained in as well: store them too.
-            for token_hash in self.tree.elements.keys() - known_hashes - {token.get_hash()}:
-                self.database.insert_token(self.public_key, self.tree.elements[token_hash])
+            # Follow the order in which they were chained in (parents first): a crash never leaves a stored orphan.
+            for token_hash, chained in list(self.tree.elements.items()):
+                if token_hash not in known_hashes and token_hash != token.get_hash():
+                    self.database.insert_token(self.public_key, chained)
 
             # If the metadata belongs to this token and chain, insert it.
             if metadata.verify(self.public_key) and metadata.token_pointer == token.get_hash():
